@@ -3,6 +3,8 @@ pub mod common;
 pub mod c02;
 pub mod c03;
 pub mod c05;
+pub mod c06;
+pub mod c07;
 pub mod c10;
 pub mod c13;
 pub mod c14;
@@ -15,6 +17,8 @@ pub fn run(id: &str, cfg: &Cfg) -> Option<Report> {
         "C02" => c02::run(cfg),
         "C03" => c03::run(cfg),
         "C05" => c05::run(cfg),
+        "C06" => c06::run(cfg),
+        "C07" => c07::run(cfg),
         "C10" => c10::run(cfg),
         "C13" => c13::run(cfg),
         "C14" => c14::run(cfg),
@@ -27,6 +31,8 @@ pub fn replay(id: &str, case: &J) -> Option<i32> {
         "C02" => c02::replay(case),
         "C03" => c03::replay(case),
         "C05" => c05::replay(case),
+        "C06" => c06::replay(case),
+        "C07" => c07::replay(case),
         "C10" => c10::replay(case),
         "C13" => c13::replay(case),
         "C14" => c14::replay(case),
